@@ -815,20 +815,25 @@ Proof.
     + reflexivity.
 Qed.
 
-(* ---------- an input-only sufficient condition for "no wrap" (sessions reading the interface table) ----------
-   If, per counter, the sum of every reading that appears anywhere in the history is below 2^64, no
-   cumulative ever wraps (each cumulative is bounded by the sum of the readings seen so far). *)
+(* ---------- an input-only sufficient condition for "no wrap" (every variant V, every access type) ----------
+   If, per counter, the sum of every reading that appears anywhere in the history (interface table and l2gw segment)
+   is below 2^64, no cumulative ever wraps: each cumulative is bounded by the sum of the readings seen so far. *)
 Definition c4_add (a b : c4) : c4 := c4_map2 N.add a b.
 Fixpoint items_sum (l : list (N * c4)) : c4 :=
   match l with [] => c4z | (_, c) :: r => c4_add (c4_norm c) (items_sum r) end.
 Definition snap_sum (sn : snap) : c4 := match sn with None => c4z | Some l => items_sum l end.
+(* an l2gw entry (bytes, packets) may feed the input or the output counters *)
+Fixpoint l2items_sum (l : list (N * (N * N))) : c4 :=
+  match l with [] => c4z | (_, (b, p)) :: r => c4_add (C4 (b mod W) (b mod W) (p mod W) (p mod W)) (l2items_sum r) end.
+Definition l2_sum (sn : l2snap) : c4 := match sn with None => c4z | Some l => l2items_sum l end.
+Definition snaps_sum (sn : snaps) : c4 := c4_add (snap_sum (ifs sn)) (c4_add (l2_sum (l2 sn)) (l2_sum (l2 sn))).
 Definition ev_sum (ev : sev) : c4 :=
-  match ev with EReleased sn => snap_sum (ifs sn) | ETick sn _ => snap_sum (ifs sn) | _ => c4z end.
+  match ev with EReleased sn => snaps_sum sn | ETick sn _ => snaps_sum sn | _ => c4z end.
 Fixpoint total_readings (evs : list sev) : c4 :=
   match evs with [] => c4z | ev :: r => c4_add (ev_sum ev) (total_readings r) end.
 
 Ltac c4crush :=
-  unfold c4_le, c4_lt_W, c4_add, c4_map2, c4z in *; cbn [rxb txb rxp txp] in *; lia.
+  unfold c4_le, c4_lt_W, c4_add, c4_max, c4_map2, c4z in *; cbn [rxb txb rxp txp fst snd] in *; lia.
 
 Lemma lookup_last_le l : forall i acc st X,
   (forall c, acc = Some c -> c4_le c X) -> lookup_last l i acc = Some st ->
@@ -851,10 +856,45 @@ Proof.
   c4crush.
 Qed.
 
-Definition sinv (B : c4) (e : sess) : Prop :=
-  base e = c4z /\ c4_le (prior e) (last e) /\ c4_le (last e) B.
+Definition pair_le (x : N * N) (X : c4) : Prop := fst x <= rxb X /\ fst x <= txb X /\ snd x <= rxp X /\ snd x <= txp X.
 
-Lemma sinv_mono B B' e : sinv B e -> c4_le B B' -> sinv B' e.
+Lemma lookup_l2_last_le l : forall i acc x X,
+  (forall y, acc = Some y -> pair_le y X) -> lookup_l2_last l i acc = Some x ->
+  pair_le x (c4_add X (l2items_sum l)).
+Proof.
+  induction l as [|[j [b p]] r IH]; intros i acc x X Ha H; cbn [lookup_l2_last l2items_sum] in *.
+  - specialize (Ha x H). unfold pair_le in *. c4crush.
+  - assert (B : pair_le x (c4_add (c4_add X (C4 (b mod W) (b mod W) (p mod W) (p mod W))) (l2items_sum r))).
+    { eapply IH; [|exact H]. intros y Hy. destruct (N.eqb i j).
+      - inversion Hy; subst. unfold pair_le. c4crush.
+      - specialize (Ha y Hy). unfold pair_le in *. c4crush. }
+    unfold pair_le in *. c4crush.
+Qed.
+
+Lemma lookup_l2_le sn i x : lookup_l2 sn i = Some x -> pair_le x (l2_sum sn).
+Proof.
+  unfold lookup_l2, l2_sum. destruct sn as [l|]; [|discriminate]. intros H.
+  pose proof (lookup_l2_last_le l i None x c4z) as B.
+  assert (B' : pair_le x (c4_add c4z (l2items_sum l))) by (apply B; [intros y Hy; discriminate|exact H]).
+  unfold pair_le in *. c4crush.
+Qed.
+
+Lemma reading_le v g tick e sn st : reading v g tick e sn = Some st -> c4_le st (snaps_sum sn).
+Proof.
+  unfold reading, snaps_sum. destruct (g && (tick || fix_l2stop v)).
+  - unfold l2_reading.
+    destruct (lookup_l2 (l2 sn) (ifx e)) as [u|] eqn:U; destruct (lookup_l2 (l2 sn) (hfx e)) as [d|] eqn:D;
+      intros H; inversion H; subst;
+      try (pose proof (lookup_l2_le _ _ _ U) as PU); try (pose proof (lookup_l2_le _ _ _ D) as PD);
+      unfold pair_le in *; c4crush.
+  - intros H. pose proof (lookup_stats_le _ _ _ H). c4crush.
+Qed.
+
+(* base = 0, prior <= floor <= B *)
+Definition sinv (v : variant) (B : c4) (e : sess) : Prop :=
+  base e = c4z /\ c4_le (prior e) (floor v e) /\ c4_le (floor v e) B.
+
+Lemma sinv_mono v B B' e : sinv v B e -> c4_le B B' -> sinv v B' e.
 Proof. intros (H1 & H2 & H3) L. split; [exact H1|split; [exact H2|c4crush]]. Qed.
 
 Lemma c4_any2_false_intro f a b :
@@ -862,128 +902,158 @@ Lemma c4_any2_false_intro f a b :
   f (rxp a) (rxp b) = false -> f (txp a) (txp b) = false -> c4_any2 f a b = false.
 Proof. intros H1 H2 H3 H4. unfold c4_any2. rewrite H1, H2, H3, H4. reflexivity. Qed.
 
-Lemma apply_bound fo fl fp B T e st :
-  sinv B e -> c4_lt_W st -> c4_le st T -> c4_lt_W (c4_add B T) ->
-  apply_wraps (V false fo fl fp) e st = false /\
-  sinv (c4_add B T) (fst (apply (V false fo fl fp) e st)) /\
-  c4_le (prior (fst (apply (V false fo fl fp) e st))) (snd (apply (V false fo fl fp) e st)) /\
-  c4_le (snd (apply (V false fo fl fp) e st)) (c4_add B T).
+Lemma floor_rebase v e st : floor v (rebase v e st) = floor v e.
+Proof. unfold rebase. destruct (regressed v e st); reflexivity. Qed.
+
+Lemma apply_bound v B T e st :
+  sinv v B e -> c4_lt_W st -> c4_le st T -> c4_lt_W (c4_add B T) ->
+  apply_wraps v e st = false /\
+  base (fst (apply v e st)) = c4z /\
+  c4_le (prior (fst (apply v e st))) (floor v e) /\
+  c4_le (prior (fst (apply v e st))) (snd (apply v e st)) /\
+  c4_le (snd (apply v e st)) (c4_add B T).
 Proof.
   intros (Hb & Hp & Hl) Lst LT LW.
   unfold apply, apply_wraps. cbn [fst snd].
-  assert (E : base (rebase (V false fo fl fp) e st) = c4z /\
-              c4_le (prior (rebase (V false fo fl fp) e st)) (last e) /\ last (rebase (V false fo fl fp) e st) = last e).
-  { unfold rebase. destruct (regressed (V false fo fl fp) e st); cbn [base prior last floor fix_sent V]; (split; [|split]); auto; try c4crush. }
-  destruct E as (E1 & E2 & E3).
-  set (e' := rebase (V false fo fl fp) e st) in *.
+  assert (E : base (rebase v e st) = c4z /\ c4_le (prior (rebase v e st)) (floor v e)).
+  { unfold rebase. destruct (regressed v e st); cbn [base prior]; split; auto. c4crush. }
+  destruct E as (E1 & E2).
+  set (e' := rebase v e st) in *.
   assert (C : cum e' st = c4_add st (prior e')).
   { unfold cum. rewrite E1. destruct st as [a b c d], (prior e') as [pa pb pc pd] eqn:PE.
-    destruct (last e) as [la lb lc ld], B as [ba bb bc bd], T as [ta tb tc td].
+    destruct (floor v e) as [la lb lc ld], B as [ba bb bc bd], T as [ta tb tc td].
     unfold c4_le, c4_lt_W, c4_add, c4_map2, c4z in *; cbn [rxb txb rxp txp] in *.
     rewrite !sub64_zero by lia. rewrite !add64_small by lia. reflexivity. }
-  split; [|split; [|split]].
+  split; [|split; [|split; [|split]]].
   - rewrite E1.
-    destruct st as [a b c d], (prior e') as [pa pb pc pd], (last e) as [la lb lc ld],
+    destruct st as [a b c d], (prior e') as [pa pb pc pd], (floor v e) as [la lb lc ld],
              B as [ba bb bc bd], T as [ta tb tc td].
     unfold c4_le, c4_lt_W, c4_add, c4_map2, c4z in *; cbn [rxb txb rxp txp] in *.
     apply orb_false_intro; apply c4_any2_false_intro; cbn [rxb txb rxp txp];
       try (apply N.ltb_ge; lia); apply N.leb_gt; lia.
-  - unfold sinv. split; [exact E1|split].
-    + rewrite E3. exact E2.
-    + rewrite E3. c4crush.
+  - exact E1.
+  - exact E2.
   - rewrite C. c4crush.
   - rewrite C. c4crush.
 Qed.
 
-Lemma report_bound fo fl fp B T tick e sn :
-  sinv B e -> c4_le (snap_sum (ifs sn)) T -> c4_lt_W (c4_add B T) ->
-  report_wraps (V false fo fl fp) false tick e sn = false /\
-  sinv (c4_add B T) (fst (report (V false fo fl fp) false tick e sn)) /\
-  c4_le (prior (fst (report (V false fo fl fp) false tick e sn))) (snd (report (V false fo fl fp) false tick e sn)) /\
-  c4_le (snd (report (V false fo fl fp) false tick e sn)) (c4_add B T).
+Lemma report_bound fs fo fl fp g tick B e sn :
+  sinv (V fs fo fl fp) B e -> c4_lt_W (c4_add B (snaps_sum sn)) ->
+  report_wraps (V fs fo fl fp) g tick e sn = false /\
+  base (fst (report (V fs fo fl fp) g tick e sn)) = c4z /\
+  c4_le (prior (fst (report (V fs fo fl fp) g tick e sn))) (floor (V fs fo fl fp) e) /\
+  c4_le (floor (V fs fo fl fp) e) (snd (report (V fs fo fl fp) g tick e sn)) /\
+  c4_le (snd (report (V fs fo fl fp) g tick e sn)) (c4_add B (snaps_sum sn)).
 Proof.
-  intros I LT LW. unfold report, report_wraps, reading. cbn [andb].
-  destruct (lookup_stats (ifs sn) (ifx e)) as [st|] eqn:L.
-  - apply apply_bound; auto.
-    + eapply lookup_stats_lt; exact L.
-    + pose proof (lookup_stats_le (ifs sn) (ifx e) st L). c4crush.
-  - cbn [fst snd floor fix_sent V]. destruct I as (I1 & I2 & I3). split; [reflexivity|split; [|split]].
-    + unfold sinv. split; [exact I1|split; [exact I2|c4crush]].
-    + exact I2.
-    + c4crush.
+  intros I LW.
+  assert (R1 : report_wraps (V fs fo fl fp) g tick e sn = false /\
+               base (fst (report (V fs fo fl fp) g tick e sn)) = c4z /\
+               c4_le (prior (fst (report (V fs fo fl fp) g tick e sn))) (floor (V fs fo fl fp) e) /\
+               c4_le (snd (report (V fs fo fl fp) g tick e sn)) (c4_add B (snaps_sum sn))).
+  { unfold report, report_wraps. destruct (reading (V fs fo fl fp) g tick e sn) as [st|] eqn:L.
+    - destruct (apply_bound (V fs fo fl fp) B (snaps_sum sn) e st I (reading_lt _ _ _ _ _ _ L) (reading_le _ _ _ _ _ _ L) LW)
+        as (A1 & A2 & A3 & A4 & A5). auto.
+    - cbn [fst snd]. destruct I as (I1 & I2 & I3). split; [reflexivity|split; [exact I1|split; [exact I2|c4crush]]]. }
+  destruct R1 as (R1 & R2 & R3 & R4).
+  split; [exact R1|split; [exact R2|split; [exact R3|split; [apply report_ge_floor; [reflexivity|exact R1]|exact R4]]]].
 Qed.
 
-Definition ginv (B : c4) (s : sst) : Prop :=
-  (forall e, cache s = Some e -> sinv B e) /\ (forall d, db s = Some d -> sinv B d).
+Definition ginv (v : variant) (B : c4) (s : sst) : Prop :=
+  (forall e, cache s = Some e -> sinv v B e) /\ (forall d, db s = Some d -> sinv v B d).
 
 Lemma c4_le_refl a : c4_le a a. Proof. c4crush. Qed.
 
-Lemma step_bound fo fl fp B s ev :
-  ginv B s -> c4_lt_W (c4_add B (ev_sum ev)) ->
-  lstep_wraps (V false fo fl fp) false s ev = false /\ ginv (c4_add B (ev_sum ev)) (fst (lstep (V false fo fl fp) false s ev)).
+(* the session after a tick: floor and prior stay within the bound *)
+Lemma tick_sinv fs fo fl fp B B' (e e0 : sess) (c : c4) (ok : bool) :
+  sinv (V fs fo fl fp) B e -> c4_le B B' ->
+  base e0 = c4z -> last e0 = last e -> hw e0 = hw e ->
+  c4_le (prior e0) (floor (V fs fo fl fp) e) -> c4_le (floor (V fs fo fl fp) e) c -> c4_le c B' ->
+  let e' := if fs then Sess (ifx e0) (hfx e0) (last e0) c (base e0) (prior e0) (pending e0) else e0 in
+  sinv (V fs fo fl fp) B' e' /\
+  sinv (V fs fo fl fp) B' (Sess (ifx e') (hfx e') (if ok then c else last e') (hw e') (base e') (prior e') (pending e')).
+Proof.
+  intros (I1 & I2 & I3) LB H1 H2 H3 H4 H5 H6.
+  unfold sinv, floor in *. cbn [fix_sent V] in *.
+  destruct fs, ok; cbn [base prior last hw]; rewrite ?H2, ?H3; repeat split; auto; c4crush.
+Qed.
+
+Lemma step_bound fs fo fl fp g B s ev :
+  ginv (V fs fo fl fp) B s -> c4_lt_W (c4_add B (ev_sum ev)) ->
+  lstep_wraps (V fs fo fl fp) g s ev = false /\ ginv (V fs fo fl fp) (c4_add B (ev_sum ev)) (fst (lstep (V fs fo fl fp) g s ev)).
 Proof.
   intros [Ic Id] LW.
+  set (v := V fs fo fl fp) in *.
   assert (MB : c4_le B (c4_add B (ev_sum ev))) by c4crush.
-  assert (Ic' : forall e, cache s = Some e -> sinv (c4_add B (ev_sum ev)) e)
+  assert (Ic' : forall e, cache s = Some e -> sinv v (c4_add B (ev_sum ev)) e)
     by (intros e He; eapply sinv_mono; [apply Ic; exact He|exact MB]).
-  assert (Id' : forall d, db s = Some d -> sinv (c4_add B (ev_sum ev)) d)
+  assert (Id' : forall d, db s = Some d -> sinv v (c4_add B (ev_sum ev)) d)
     by (intros d Hd; eapply sinv_mono; [apply Id; exact Hd|exact MB]).
-  assert (F : forall i h, sinv (c4_add B (ev_sum ev)) (fresh i h))
-    by (intros i h; unfold sinv, fresh; cbn [base prior last]; split; [reflexivity|split; c4crush]).
+  assert (F : forall i h, sinv v (c4_add B (ev_sum ev)) (fresh i h)).
+  { intros i h. unfold sinv, floor, fresh. cbn [base prior last hw]. destruct (fix_sent v); repeat split; c4crush. }
+  assert (CF : forall e i h, sinv v (c4_add B (ev_sum ev)) e -> sinv v (c4_add B (ev_sum ev)) (confirm e i h))
+    by (intros e i h H; exact H).
   destruct s as [ib ca d]. cbn [cache db] in *.
   destruct ev as [i h|i h|sn|sn ok| | |past]; cbn [lstep lstep_wraps cache db inb ev_sum] in *.
   - split; [destruct ca; reflexivity|].
     destruct ib; [split; cbn; auto|].
-    destruct ca as [e|]; cbn [fix_active V fst]; split; cbn [cache db]; intros x Hx; inversion Hx; subst; auto.
-    specialize (Ic' e eq_refl). unfold sinv, confirm in *; cbn. exact Ic'.
+    destruct ca as [e|]; subst v; cbn [fix_active V fst]; split; cbn [cache db]; intros x Hx; inversion Hx; subst; auto.
   - split; [destruct ca; reflexivity|].
     destruct ca as [e|]; cbn [fst]; split; cbn [cache db]; intros x Hx; try (inversion Hx; subst); auto.
-    specialize (Ic' e eq_refl). unfold sinv, confirm in *; cbn. exact Ic'.
   - destruct ca as [e|].
-    + destruct (report_bound fo fl fp B (snap_sum (ifs sn)) false e sn (Ic e eq_refl) (c4_le_refl _) LW) as (R1 & _).
+    + destruct (report_bound fs fo fl fp g false B e sn (Ic e eq_refl) LW) as (R1 & _). fold v in R1.
       split; [exact R1|]. cbn. split; intros x Hx; discriminate.
     + split; [reflexivity|]. cbn. split; intros x Hx; discriminate.
   - destruct ca as [e|].
-    + destruct (report_bound fo fl fp B (snap_sum (ifs sn)) true e sn (Ic e eq_refl) (c4_le_refl _) LW) as (R1 & R2 & R3 & R4).
+    + destruct (report_bound fs fo fl fp g true B e sn (Ic e eq_refl) LW) as (R1 & R2 & R3 & R4 & R5). fold v in R1, R2, R3, R4, R5.
       destruct ib; cbn [andb].
       * split; [exact R1|].
-        destruct (report (V false fo fl fp) false true e sn) as [e' c] eqn:RP. cbn [fst snd] in *.
-        destruct ok; cbn [fst]; split; cbn [cache db]; intros x Hx; try (inversion Hx; subst); auto;
-          destruct R2 as (Q1 & Q2 & Q3); unfold sinv; cbn [base prior last]; (split; [|split]); auto.
+        pose proof (report_fields v g true e sn) as (F1 & F2 & F3 & F4).
+        destruct (report v g true e sn) as [e0 c] eqn:RP. cbn [fst snd] in *.
+        destruct (tick_sinv fs fo fl fp B (c4_add B (snaps_sum sn)) e e0 c ok (Ic e eq_refl) MB R2 F2 F4 R3 R4 R5) as [T1 T2].
+        subst v. cbn [fix_sent V] in *.
+        destruct ok, fs; cbn [fst]; split; cbn [cache db]; intros x Hx; try (injection Hx as <-);
+          first [exact T1 | exact T2 | apply Id'; exact Hx | auto].
       * split; [reflexivity|]. cbn. split; auto.
     + split; [destruct ib; reflexivity|]. destruct ib; cbn; split; auto.
   - split; [destruct ca; reflexivity|]. destruct ca as [e|]; [|cbn; split; auto].
-    cbn [fst floor fix_sent V]. specialize (Ic' e eq_refl).
-    split; cbn [cache db]; intros x Hx; inversion Hx; subst; unfold sinv in *; cbn; exact Ic'.
+    cbn [fst]. specialize (Ic' e eq_refl). destruct Ic' as (J1 & J2 & J3).
+    assert (S' : sinv v (c4_add B c4z) (Sess (ifx e) (hfx e) (floor v e) (hw e) (base e) (prior e) (pending e))).
+    { unfold sinv, floor in *. cbn [base prior last hw]. destruct (fix_sent v); repeat split; auto; c4crush. }
+    split; cbn [cache db]; intros x Hx; inversion Hx; subst; exact S'.
   - split; [destruct ca; reflexivity|]. cbn [fst]. split; cbn [cache db]; [|exact Id'].
     intros x Hx. destruct d as [dd|]; [|discriminate]. inversion Hx; subst.
-    specialize (Id' dd eq_refl). unfold sinv in *; cbn. exact Id'.
+    specialize (Id' dd eq_refl). unfold sinv, floor in *; cbn [base prior last hw]. exact Id'.
   - split; [destruct ca; reflexivity|].
     destruct ca as [e|]; [|cbn; split; auto].
     destruct (pending e && past); cbn; split; auto; intros x Hx; discriminate.
 Qed.
 
-Lemma run_bound fo fl fp evs : forall s B,
-  ginv B s -> c4_lt_W (c4_add B (total_readings evs)) -> lrun_wraps (V false fo fl fp) false s evs = false.
+Lemma run_bound fs fo fl fp g evs : forall s B,
+  ginv (V fs fo fl fp) B s -> c4_lt_W (c4_add B (total_readings evs)) -> lrun_wraps (V fs fo fl fp) g s evs = false.
 Proof.
   induction evs as [|ev r IH]; intros s B I LW; cbn [lrun_wraps total_readings] in *; [reflexivity|].
   assert (LW1 : c4_lt_W (c4_add B (ev_sum ev))) by c4crush.
-  destruct (step_bound fo fl fp B s ev I LW1) as [S1 S2].
+  destruct (step_bound fs fo fl fp g B s ev I LW1) as [S1 S2].
   rewrite S1. cbn [orb]. eapply IH; [exact S2|]. c4crush.
 Qed.
 
-Lemma no_wrap_if_total_small fo fl fp evs :
-  c4_lt_W (total_readings evs) -> lrun_wraps (V false fo fl fp) false sst0 evs = false.
+Lemma no_wrap_if_total_small fs fo fl fp g evs :
+  c4_lt_W (total_readings evs) -> lrun_wraps (V fs fo fl fp) g sst0 evs = false.
 Proof.
-  intros H. apply (run_bound fo fl fp evs sst0 c4z).
+  intros H. apply (run_bound fs fo fl fp g evs sst0 c4z).
   - split; intros x Hx; discriminate.
   - c4crush.
 Qed.
 
-Lemma monotone_total fo fl fp evs :
+Lemma monotone_sent_total fo fl g evs :
+  c4_lt_W (total_readings evs) ->
+  nondecreasing_sent c4z (outputs (snd (lrun (V true fo fl true) g sst0 evs))) = true.
+Proof. intros H. apply monotone_sent_p. apply no_wrap_if_total_small; exact H. Qed.
+
+Lemma monotone_sent_total_noprune fo fl fp g evs :
   c4_lt_W (total_readings evs) -> no_prune evs = true ->
-  nondecreasing c4z (outputs (snd (lrun (V false fo fl fp) false sst0 evs))) = true.
-Proof. intros H NP. apply monotone; [apply no_wrap_if_total_small; exact H|exact NP]. Qed.
+  nondecreasing_sent c4z (outputs (snd (lrun (V true fo fl fp) g sst0 evs))) = true.
+Proof. intros H NP. apply monotone_sent; [apply no_wrap_if_total_small; exact H|exact NP]. Qed.
 
 (* ---------- the RADIUS wire encoding of the counters ---------- *)
 Lemma giga_roundtrip x : x < W -> giga_val (giga_attr x) * W32 + x mod W32 = x.
